@@ -163,6 +163,73 @@ func childChurn(b run.Batch, r *ev.Result, rng *rand.Rand) {
 	}
 
 	stalled.Store(false)
+	// ---- (e) sync pollers for an authorized device while migration orders for other equipment arrive
+	{
+		nm := 2000 + rng.Intn(1000)
+		newGCA := refenc.GenKey(rng)
+		inner := refenc.AuthServer{Pub: refenc.GenKey(rng).Pub, Location: "127.0.0.1", HTTP: 1, TCP: 1, UDP: 1}.Signed(newGCA.Priv)
+		orders := make([][]byte, nm)
+		for i := range orders {
+			m := refenc.Migration{NewGCA: newGCA.Pub, NewID: uint32(i), Servers: []refenc.AuthServer{inner}}
+			rng.Read(m.Equipment[:])
+			orders[i] = m.Signed(w.GCAk.Priv).JSON()
+		}
+		run.Op("churn: 48 sync pollers for device %d while %d migration orders for other equipment are posted by 4 clients", w.probes[0].ID, nm)
+		var mdone atomic.Bool
+		var msyncs, mOK, nextM atomic.Int64
+		var mw, pw2 sync.WaitGroup
+		for g := 0; g < 48; g++ {
+			mw.Add(1)
+			go func() {
+				defer mw.Done()
+				for !mdone.Load() && !stalled.Load() {
+					c, err := w.dial(w.TCP)
+					if err != nil {
+						continue
+					}
+					c.SetDeadline(time.Now().Add(8 * time.Second))
+					c.Write(idBytes(w.probes[0].ID))
+					buf := make([]byte, 4096)
+					if n, err := c.Read(buf); n > 1 {
+						msyncs.Add(1)
+					} else if isTimeout(err) {
+						stalled.Store(true)
+					}
+					c.Close()
+				}
+			}()
+		}
+		for g := 0; g < 6; g++ {
+			pw2.Add(1)
+			go func() {
+				defer pw2.Done()
+				for {
+					i := int(nextM.Add(1)) - 1
+					if i >= nm || stalled.Load() {
+						return
+					}
+					if st, err := cdo("POST", "/api/v1/equipment-migrate", orders[i]); err == nil && st == 200 {
+						mOK.Add(1)
+					}
+				}
+			}()
+		}
+		pw2.Wait()
+		mdone.Store(true)
+		mw.Wait()
+		r.Eval(nm)
+		r.Count("inputs.http", int64(nm))
+		r.Count("inputs.http.churn", int64(nm))
+		r.Count("churn.migration_orders_under_sync_polling", mOK.Load())
+		r.Count("churn.syncs_answered_during_migration_orders", msyncs.Load())
+		w.rm["equipment-migrate POST"] = true
+		r.Nontrivial(fmt.Sprintf("churn/migrate/%d", b.Seed))
+		w.checkStderr("sync polling during migration orders")
+		if !w.live("sync polled while migration orders arrived") {
+			return
+		}
+	}
+	stalled.Store(false)
 	// ---- (c) sync pollers for an authorized device while new servers (peers down) are onboarded
 	port, release, err := closedPort()
 	if err != nil {
